@@ -68,6 +68,32 @@ class Obligation:
         return f"<obl {self.id}>"
 
 
+def split_goal(goal, limit=48):
+    """skolemise universal goals and split conjunctions: one small query per conjunct"""
+    out = []
+
+    def rec(g, extra):
+        if len(out) >= limit:
+            out.append((extra, g))
+            return
+        if z3.is_quantifier(g) and g.is_forall():
+            vs = [z3.Const(fresh_name('sk_' + g.var_name(i)), g.var_sort(i)) for i in range(g.num_vars())]
+            body = z3.substitute_vars(g.body(), *reversed(vs))
+            rec(body, extra)
+        elif z3.is_and(g):
+            for c in g.children():
+                rec(c, extra)
+        elif z3.is_implies(g):
+            rec(g.arg(1), extra + [g.arg(0)])
+        elif z3.is_app(g) and g.decl().kind() == z3.Z3_OP_ITE and g.sort() == z3.BoolSort():
+            rec(g.arg(1), extra + [g.arg(0)])
+            rec(g.arg(2), extra + [z3.Not(g.arg(0))])
+        else:
+            out.append((extra, g))
+    rec(goal, [])
+    return out
+
+
 class Explorer:
     def __init__(self):
         self.decisions = []
@@ -264,7 +290,15 @@ class Run:
             goal = z3.BoolVal(goal)
         meta.setdefault('line', self.cur_line)
         meta['path'] = self.explorer.paths
-        self.obligations.append(Obligation(oid, self.pc, goal, meta))
+        if meta.get('canary'):
+            self.obligations.append(Obligation(oid, self.pc, goal, meta))
+            return
+        pieces = split_goal(goal)
+        for i, (extra, g) in enumerate(pieces):
+            m = dict(meta)
+            m['piece'] = i
+            m['whole_goal'] = goal
+            self.obligations.append(Obligation(oid, self.pc + extra, g, m))
 
     # ---- statements --------------------------------------------------------------------------------
     def exec_block(self, stmts):
@@ -422,7 +456,7 @@ class Run:
         else:
             done = z3.Const(fresh_name('done'), z3.ArraySort(it.ksort, z3.BoolSort()))
             k = z3.Const(fresh_name('wk'), it.ksort)
-            self.pc.append(z3.ForAll([k], z3.Implies(done[k], it.dom[k]), patterns=[done[k]]))
+            self.pc.append(sym.forall([k], z3.Implies(done[k], it.dom[k]), [done[k]]))
             lc.done = done
         for g, (gt, ginit, gstep) in lspec.ghosts.items():
             ghosts[g] = self.fresh(gt, 'gh_' + g)
@@ -515,6 +549,11 @@ class Run:
                 ft = o.spec().all_fields().get(target.attr)
                 if ft is None:
                     raise Unsupported(f"store to undeclared field {target.attr} of packed {o.cls}")
+            ft = o.spec().all_fields().get(target.attr) if o.cls in CLASSES else None
+            if isinstance(v, PyEmptyDict) and isinstance(ft, TDict):
+                v = SDict(ft, ft.empty())
+            elif isinstance(v, PyList) and isinstance(ft, TList):
+                v = self.make_list(v.items, ft.e)
             o.setfield(target.attr, v)
         elif isinstance(target, ast.Subscript):
             c = self.ev(target.value)
@@ -716,9 +755,9 @@ class Run:
             nxt = self.fresh(dt, 'merge')
             k = z3.Const(fresh_name('mk'), dt.k.sort())
             nd, nv = dt.dom(nxt.get()), dt.val(nxt.get())
-            self.assume(z3.ForAll([k], z3.And(nd[k] == z3.Or(dt.dom(cur)[k], p.dom[k]),
+            self.assume(sym.forall([k], z3.And(nd[k] == z3.Or(dt.dom(cur)[k], p.dom[k]),
                                              nv[k] == z3.If(p.dom[k], p.val[k], dt.val(cur)[k])),
-                                  patterns=[nd[k], nv[k]]))
+                                  [nd[k], nv[k]]))
             cur = nxt.get()
         return SDict(dt, cur)
 
@@ -869,12 +908,12 @@ class Run:
         if op == 'Sub' and isinstance(a, SSet) and isinstance(b, SSet):
             r = self.fresh(a.typ, 'diff')
             k = z3.Const(fresh_name('dk'), a.typ.k.sort())
-            self.assume(z3.ForAll([k], r.dom[k] == z3.And(a.dom[k], z3.Not(b.dom[k])), patterns=[r.dom[k]]))
+            self.assume(sym.forall([k], r.dom[k] == z3.And(a.dom[k], z3.Not(b.dom[k])), [r.dom[k]]))
             return r
         if op == 'BitOr' and isinstance(a, SSet) and isinstance(b, SSet):
             r = self.fresh(a.typ, 'union')
             k = z3.Const(fresh_name('dk'), a.typ.k.sort())
-            self.assume(z3.ForAll([k], r.dom[k] == z3.Or(a.dom[k], b.dom[k]), patterns=[r.dom[k]]))
+            self.assume(sym.forall([k], r.dom[k] == z3.Or(a.dom[k], b.dom[k]), [r.dom[k]]))
             return r
         from . import pylib
         r = pylib.binop(self, op, a, b, inplace)
@@ -1014,8 +1053,8 @@ class Run:
         st = TSet(elt.typ)
         res = self.fresh(st, 'sc')
         l = z3.Const(fresh_name('sl'), st.k.sort())
-        self.assume(z3.ForAll([l], res.dom[l] == z3.Exists(inner_vars, z3.And(guard, et == l)),
-                              patterns=[res.dom[l]]))
+        self.assume(sym.forall([l], res.dom[l] == z3.Exists(inner_vars, z3.And(guard, et == l)),
+                              [res.dom[l]]))
         for fr in frames:
             self.qstack.append(fr)
         self.comp_close(frames)
@@ -1045,8 +1084,8 @@ class Run:
         dt = TDict(ktyp, vtyp)
         res = self.fresh(dt, 'dc')
         l = z3.Const(fresh_name('dl'), ktyp.sort())
-        self.assume(z3.ForAll([l], res.dom[l] == z3.Exists(inner_vars, z3.And(guard, kt == l)),
-                              patterns=[res.dom[l]]))
+        self.assume(sym.forall([l], res.dom[l] == z3.Exists(inner_vars, z3.And(guard, kt == l)),
+                              [res.dom[l]]))
         for fr in frames:
             self.qstack.append(fr)
         self.assume(res.val[kt] == vt)
@@ -1074,6 +1113,16 @@ class Run:
             return Iter('set', dom=v.typ.dom(snap), ksort=v.typ.k.sort(), at=lambda k: v.typ.k.wrap(k))
         if isinstance(v, PyEmptyDict):
             return Iter('seq', n=z3.IntVal(0), concrete=[])
+        from . import pylib
+        if isinstance(v, pylib.DictView):
+            d = v.d
+            if v.what == 'keys':
+                at = lambda k: d.typ.k.wrap(k)
+            elif v.what == 'values':
+                at = lambda k: snapshot(d.elem(k))
+            else:
+                at = lambda k: STuple([d.typ.k.wrap(k), snapshot(d.elem(k))])
+            return Iter('set', dom=d.dom, ksort=d.typ.k.sort(), at=at)
         raise Unsupported(f"line {self.cur_line}: iteration over {v}")
 
     # ---- calls -----------------------------------------------------------------------------------
@@ -1171,6 +1220,8 @@ class Run:
 
     def call_contract(self, fs, recv, args, kwargs, constructing=None):
         """modular call: check the callee's precondition, havoc its frame, assume its postcondition"""
+        if self.fspec is not None and fs.key in self.fspec.callee_variants:
+            fs = FUNCS[self.fspec.callee_variants[fs.key]]
         self.called.add(fs.key)
         if fs.inline:
             fdef, mod = locate(fs)
@@ -1210,6 +1261,13 @@ class Run:
             res = recv
         elif constructing:
             res = newobj
+        elif fs.ret is not None and fs.pure and not self.qstack and _packable(recv, a, fs):
+            rs = pack(recv) if recv is not None else None
+            ats = [pack(a[p], fs.params.get(p)) for p in fs.params]
+            f = spec.pure_fn(fs, rs.sort() if rs is not None else None, [t.sort() for t in ats])
+            term = f(*([rs] if rs is not None else []), *ats)
+            res = fs.ret.wrap(term)
+            self.assume(*fs.ret.wf(term))
         elif fs.ret is not None:
             res = self.fresh(fs.ret, 'res_' + fs.func_name)
         else:
@@ -1227,6 +1285,10 @@ class Run:
             for cname, f in recv.spec().all_invariants().items():
                 if self.clause_enabled(fs, 'inv:' + cname):
                     self.assume(_conj(f(ObjView(recv))))
+            if recv.spec().opaque_inv:
+                self.assume(spec.INV(recv.cls, recv.t))
+        if fs.opaque is not None:
+            self.assume(fs.opaque(c))
         if fs.assume_only:
             self.trusted.add(f"assumed contract: {fs.key}")
         return res
@@ -1235,6 +1297,35 @@ class Run:
         self.fault_count += 1
         if self.choose(z3.Bool(fresh_name('fault'))):
             raise PyRaise('CallbackError', what)
+
+
+def _packable(recv, a, fs):
+    try:
+        if recv is not None:
+            pack(recv)
+        for p in fs.params:
+            if not isinstance(a.get(p), SV):
+                return False
+            pack(a[p], fs.params.get(p))
+        return True
+    except Exception:   # noqa
+        return False
+
+
+def coerce(run, v, typ):
+    """value of another representation of the same python value (plain numbers seen as numbers-with-kind)"""
+    if isinstance(v, SDict) and isinstance(typ, TDict) and v.typ != typ and v.typ.k == typ.k \
+            and v.typ.v in (TNum, TInt) and typ.v is TNumK:
+        r = run.fresh(typ, 'asK')
+        k = z3.Const(fresh_name('ck'), typ.k.sort())
+        mk = TNumK.sort().constructor(0)
+        src = v.val[k] if v.typ.v is TNum else z3.ToReal(v.val[k])
+        run.assume(r.dom == v.dom, sym.forall([k], z3.Implies(v.dom[k], r.val[k] == mk(src, z3.BoolVal(False), z3.BoolVal(True))),
+                                              [r.val[k]]))
+        return r
+    if isinstance(v, PyEmptyDict) and isinstance(typ, TDict):
+        return SDict(typ, typ.empty())
+    return v
 
 
 class LoopCtx:
